@@ -14,18 +14,29 @@ META = {}
 # running one scenario on the real SecopClient
 # ----------------------------------------------------------------------------------------
 class PhasePolicy(vsched.Policy):
-    """no preemption during the set-up phase (connect); afterwards `inner` decides; its step index starts at 0 there"""
+    """no preemption during the set-up phase (connect) and, when the case says `quiet_until: t`, during the first t
+    virtual seconds after it (the default schedule runs; the exploration budget goes to what happens afterwards, e.g. on the
+    time-out path); afterwards `inner` decides; its step index starts at 0 there"""
 
-    def __init__(self, inner):
+    def __init__(self, inner, quiet=None):
         self.inner = inner
         self.offset = None
+        self.quiet = quiet
+        self.sched = None
+        self.threshold = None
 
     def start(self, sched):
-        self.offset = len(sched.choices)
+        if self.quiet:
+            self.sched = sched
+            self.threshold = sched.now + self.quiet
+        else:
+            self.offset = len(sched.choices)
 
     def choose(self, enabled, default, step, labels):
         if self.offset is None:
-            return default
+            if self.threshold is None or self.sched.now < self.threshold:
+                return default
+            self.offset = step
         return self.inner.choose(enabled, default, step - self.offset, labels)
 
 
@@ -65,7 +76,7 @@ def run_case(case, policy, max_steps=6000):
     """one run of the real client under one schedule; returns (scheduler, observation dict)"""
     import frappy.client as fc
     from frappy.errors import SECoPError
-    pol = PhasePolicy(policy)
+    pol = PhasePolicy(policy, case.get('quiet_until'))
     s = vsched.Scheduler(policy=pol, max_steps=max_steps)
     instr = fakes.Instr(s)
     peer = fakes.Peer(instr, case['peer'])
@@ -142,6 +153,13 @@ def run_case(case, policy, max_steps=6000):
                 ts.append(s.spawn('closer', closer, (case['closer'],)))
             for t in ts:
                 vsched._ThreadHandle(s, t).join()
+            if case.get('settle') and case.get('closer') is not None:
+                # the user has shut the client down: let everything come to rest, then look at what is left
+                s.time.sleep(case['settle'])
+                workers = sorted(t.name for t in s.threads if t.status != 'done'
+                                 and t.name.rstrip('0123456789') in ('rxthread', 'txthread', 'reconnect'))
+                extra['settled'] = {'alive': workers, 'connected': client.io is not None}
+                instr.ev('settled', workers, extra['settled']['connected'])
             instr.ev('final.begin')
             try:
                 client.disconnect()
@@ -170,7 +188,9 @@ def run_case(case, policy, max_steps=6000):
                        | ({'main'} if 'final' not in extra and extra.get('connect') == 'ok' else set()))
     obs = {
         'callers': [outcomes.get(i, {'kind': 'none'}) for i in range(ncall)],
-        'errors': dict(res['errors']),
+        # (a thread unwound by the scheduler after an abort may trip over a lock in its `finally`: not an observation)
+        'errors': {t.name: type(t.error).__name__ for t in s.threads
+                   if t.error is not None and 'outside the scheduler' not in str(t.error)},
         'alive': alive,
         'deadlock': bool(res['deadlock']),
         'aborted': res['aborted'],
@@ -258,6 +278,7 @@ def to_labels(obs):
           'requeue': [], 'took': []}
     has_lock = any(e[1] == 'lk.acq' and e[2] == 'reqlock' for e in ev)
     notes = []
+    cut = None          # number of labels when a later connection was established: the matching model is of ONE connection
 
     def rx_flush_lazy():
         # a line that never reached the matching code (event line / undecodable): dropped
@@ -273,6 +294,12 @@ def to_labels(obs):
     for e in ev[start + 1:]:
         th, kind = e[0], e[1]
         is_rx, is_tx = th.startswith('rxthread'), th.startswith('txthread')
+        if kind == 'c.new' and e[2] and cut is None:
+            rx_flush_lazy()
+            rx_cleanup_lazy()
+            cut = len(labels)
+        if cut is not None and kind not in ('call.begin', 'call.end', 'close.end', 'final.end'):
+            continue
         if is_rx and kind not in ('d.pop', 'lk.acq', 'd.next', 'd.next.error', 'd.len') and not (kind == 'q.get' and e[2] == 'pending'):
             rx_flush_lazy()
             if kind not in ('l.len',):
@@ -459,6 +486,8 @@ def to_labels(obs):
                 rec['seq'] = uid
         elif out['kind'] == 'none':
             rec['out'] = 'other'
+        if cut is not None and 'id' not in c:
+            rec['out'] = 'later'             # served (or not) by a later connection: outside the matching model
         cobs.append(rec)
     return {'labels': labels, 'callers': cobs, 'closedAt': closed_at, 'ids': ids, 'seqs': seqs, 'notes': notes}
 
@@ -553,12 +582,13 @@ def to_shutdown_acts(obs):
                 dstep(th, 'd6', 'd7')
         elif kind == 'a.get' and e[2] == '_rxthread' and ph.get(th) == 'join':
             dstep(th, 'd7', 'd10' if e[3] is None else 'd8')
+            ph[th] = 'rxjoin'      # (later reads of _rxthread / io are the identity tests before the attributes are cleared)
         elif kind == 'a.set' and e[2] == '_rxthread' and e[3] is None:
             if is_rx and ph.get(th) is None:
                 acts.append({'a': ['rx', False], 'pc': 'd0'})
             else:
                 dstep(th, 'd9', 'd10')
-        elif kind == 'a.set' and e[2] == 'io' and e[3] is None and ph.get(th) == 'join':
+        elif kind == 'a.set' and e[2] == 'io' and e[3] is None and ph.get(th) in ('join', 'rxjoin'):
             dstep(th, 'd10', 'd11')
             ph[th] = 'final'
         elif kind == 'a.get' and e[2] == '_running':
@@ -741,6 +771,12 @@ def requests_for(case, obs, schedule):
     judge = dict(base, k='judge', callers=L['callers'], closedAt=L['closedAt'], slackMs=20,
                  threadErrors=sorted(f'{k}:{v}' for k, v in obs['errors'].items()), disconnectRaised=raised,
                  alive=obs['alive'], deadlock=obs['deadlock'], unterminated=obs['aborted'] is not None)
+    if 'settled' in obs['extra']:
+        ev = obs['events']
+        cb = next((i for i, e in enumerate(ev) if e[1] == 'close.begin'), len(ev))
+        ends = {e[2]: i for i, e in enumerate(ev) if e[1] == 'call.end'}
+        judge['afterShutdown'] = dict(obs['extra']['settled'],
+                                      userActivity=any(ends.get(i, len(ev)) > cb for i in range(len(case['callers']))))
     reqs = [dict(base, k='replay', locked=True), judge]
     if case.get('fine'):
         acts = to_shutdown_acts(obs)
@@ -817,6 +853,10 @@ def assess(case, schedule, obs, L, replay_ans, judge_ans, res, ctx, shut_ans=Non
                         f'caller {i} ({sent_text(c)}) ended with {obs["callers"][i]}'))
         else:
             out.append((f'C11:{v}', f'caller {i} ({sent_text(c)}): {v}: {obs["callers"][i]}'))
+    if not j.get('shutdown_final', True):
+        st = obs['extra'].get('settled')
+        out.append(('C11:shutdown:not-final', f'some time after the user\'s disconnect() had returned, with no request since: '
+                    f'worker threads running {st["alive"]}, connected: {st["connected"]}'))
     if not j['shutdown_clean']:
         if obs['deadlock']:
             out.append(('C11:shutdown:deadlock', 'all threads blocked without a time-out pending'))
